@@ -433,6 +433,8 @@ def still_fails(ctx_proto, case):
 
 def shrink(ctx, case, what):
     """Greedy simplification: replace indices by full slices, drop transforms/stages/flags."""
+    if case.get('kind') == 'shapechange':
+        return case, what
     cur = json.loads(json.dumps(case))
     cur['stages'] = [[tuple(i) for i in k] for k in cur['stages']]
     cur['k2'] = [tuple(i) for i in cur['k2']]
@@ -516,6 +518,69 @@ def corpus_cases():
     return out
 
 
+SHAPE_CHANGING = {
+    'sumlast': (lambda a: a.sum(axis=-1) if a.ndim else a),
+    'pair': (lambda a: np.stack([a, -a], axis=-1)),
+    'head2': (lambda a: a[:2] if a.ndim else a),
+}
+
+
+def shape_changing(ctx, n):
+    """transform chains that add, drop or shorten an axis: the shape and length an indexer advertises BEFORE anything
+    was fetched are those of the full result; with and without a first-stage selection, and for a nested child that
+    only adds transforms"""
+    from katdal.lazy_indexer import DaskLazyIndexer
+    rng = ctx.rng
+    bad = []
+    for _ in range(n):
+        ndim = rng.choice([1, 2, 2, 3])
+        shape = [rng.randint(1, 5) for _ in range(ndim)]
+        chunks = [max(1, rng.randint(1, k)) for k in shape]
+        src = np.arange(int(np.prod(shape)), dtype=np.int64).reshape(shape)
+        x = da.from_array(src, chunks=tuple(chunks))
+        names = [rng.choice(sorted(SHAPE_CHANGING)) for _ in range(rng.randint(1, 2))]
+        if rng.random() < 0.4:
+            names.insert(rng.randint(0, len(names)), rng.choice(['x3p1', 'f32']))
+        tfs = [SHAPE_CHANGING.get(t) or TRANSFORMS[t] for t in names]
+        mode = rng.choice(['nofirst', 'first', 'child'])
+        k1 = gen_tuple(rng, shape, 1) if mode == 'first' else []
+        case = dict(kind='shapechange', shape=shape, chunks=chunks, transforms=names, mode=mode, k1=k1)
+        rep = common.run_model('C04', [f"specchain {ixgen.enc_shape(shape)} {ixgen.enc_tuple(k1)} {ixgen.enc_tuple([])}"])[0]
+        if rep.startswith('E:'):
+            continue
+        exp = ixgen.apply_sels(src, ixgen.parse_sels(rep.split(' ')[1]))
+        for t in tfs:
+            exp = t(exp)
+        what = None
+        try:
+            kp = py_tuple(k1, [rng.random() < 0.5 for _ in range(8)])
+            if mode == 'child':
+                ind = DaskLazyIndexer(DaskLazyIndexer(x, ()), (), tfs)
+            else:
+                ind = DaskLazyIndexer(x, kp, tfs)
+            first = rng.choice(['shape', 'len', 'shape'])
+            adv_len = len(ind) if first == 'len' and exp.ndim else None
+            adv = tuple(ind.shape)
+            with dask.config.set(scheduler='synchronous'):
+                out = np.asarray(ind[()] if rng.random() < 0.5 else ind[tuple(slice(None) for _ in exp.shape)])
+            if adv != exp.shape:
+                what = (f'an indexer with transforms {names} ({mode}) advertises shape {adv} before the first fetch; the '
+                        f'full result has shape {exp.shape}')
+            elif adv_len is not None and adv_len != exp.shape[0]:
+                what = f'len() before the first fetch is {adv_len}, the full result has {exp.shape[0]} rows'
+            elif out.shape != exp.shape or not np.array_equal(out, exp):
+                what = f'transforms {names} ({mode}): result differs from the chain applied to array[first stage]'
+            elif tuple(ind.shape) != exp.shape or str(ind.dtype) != str(exp.dtype):
+                what = f'after the fetch the indexer advertises {tuple(ind.shape)} {ind.dtype}, result is {exp.shape} {exp.dtype}'
+        except Exception as e:   # noqa: BLE001
+            what = f'transforms {names} ({mode}) raised {type(e).__name__}: {str(e)[:100]}'
+        ctx.tag('shape-changing-transform-' + mode)
+        ctx.count(('shapechange', json.dumps(case, sort_keys=True)), True, sample={'shapechange': names, 'mode': mode})
+        if what:
+            bad.append((case, what))
+    return bad
+
+
 def run(ctx):
     ctx.matchers['c04_dask_negstep_start_below_minus_len'] = m_dask_negstep
     ctx.matchers['c04_dask_zero_width_chunk'] = m_dask_zero_chunk
@@ -532,6 +597,7 @@ def run(ctx):
     cases += [gen_case(ctx.rng) for _ in range(n_chain)]
     cases += [gen_readset_case(ctx.rng) for _ in range(n_read)]
     bad = evaluate(ctx, cases)
+    bad += shape_changing(ctx, ctx.q(60, 2000))
     if not bad and not build['build_ok']:
         # proof obligation broken: extended search before reporting no-failing-input-found
         more = [gen_case(ctx.rng) for _ in range(10 * n_chain)]
@@ -548,6 +614,11 @@ def replay(ctx, rep):
     ctx.matchers['c04_dask_zero_width_chunk'] = m_dask_zero_chunk
     build = common.build_and_audit('C04', 'quick')
     c = rep['case']
+    if c.get('kind') == 'shapechange':
+        # drawn from the seed: replay re-runs that stream
+        for cc, v in shape_changing(ctx, 2000):
+            ctx.violation(cc, v)
+        return common.finish(ctx, build, RULE, CHECKER, TRUSTED)
     c['stages'] = [[tuple(i) for i in k] for k in c['stages']]
     c['k2'] = [tuple(i) for i in c['k2']]
     for cc, v in evaluate(ctx, [c]):
